@@ -64,15 +64,20 @@ impl<K: Clone + PartialEq + Eq + Hash + std::fmt::Debug + std::cmp::PartialOrd, 
         while r.len() + wlen > self.limit {
             let res = self.__pop_lru(&mut r);
 
-            if let Some(val) = res {
-                log::warn!(
-                    "lru cache eviction, type {} dirty {}",
-                    crate::helpers::qcow2_type_of(&val.1),
-                    val.1.is_dirty()
-                );
-                if val.1.is_dirty() {
-                    vec.push(val);
+            match res {
+                Some(val) => {
+                    log::warn!(
+                        "lru cache eviction, type {} dirty {}",
+                        crate::helpers::qcow2_type_of(&val.1),
+                        val.1.is_dirty()
+                    );
+                    if val.1.is_dirty() {
+                        vec.push(val);
+                    }
                 }
+                // every entry is in use: exceed the limit for now, the
+                // entries go away once their users are done
+                None => break,
             }
         }
 
@@ -169,20 +174,10 @@ impl<K: Clone + PartialEq + Eq + Hash + std::fmt::Debug + std::cmp::PartialOrd, 
                     }
                 });
 
-        if key_out.is_none() {
-            // it is safe to remove cache entry with active user, since the
-            // user holds the reference
-            (_, key_out) = map
-                .iter()
-                .fold((usize::MAX, None), |(min, key_out), (key, entry)| {
-                    let l = entry.lru.load(Ordering::Relaxed);
-                    if l < min {
-                        (l, Some(key.clone()))
-                    } else {
-                        (min, key_out)
-                    }
-                });
-        }
+        // An entry with an active user must stay: the user keeps working on
+        // its copy (and may dirty it after the eviction), while the next
+        // lookup would load a second, stale copy from disk - the update made
+        // through the evicted copy is then never flushed.
 
         if key_out.is_none() {
             None
